@@ -139,6 +139,20 @@ def cases(tier, seed):
                     out.append({"tree": tree, "roots": ["r1"], "args": ["--min", "0"] + flt + threads + G.transform_args("barrierkeep", "in"),
                                 "env": {"FCLONES_VERIF_DISK_KIND": "ssd", "FCV_TR_BARRIER_DIR": "@TMPDIR@/../fcv-barrier",
                                         "FCV_TR_BARRIER_N": "4"}, "meta": meta, "repeat": 2})
+    # fclones run by an unprivileged user over files it may read but does not own (O_NOATIME is refused with EPERM for
+    # such files; the plain open works): nothing readable may drop out
+    from . import c20
+    if c20.can_unpriv():
+        for L in (10, 5000, 70000):
+            vs = variants(L)
+            tree = [{"p": "r1/d%d/f%d" % (i % 2, i), "k": "file", "c": vs[0]} for i in range(3)] + \
+                   [{"p": "r1/d0/o1", "k": "file", "c": vs[1]}, {"p": "r1/d1/o2", "k": "file", "c": vs[1]}]
+            for flt in ([], ["--rf-over", "0"], ["--unique"]):
+                for extra in ([], ["-t", "1"], G.transform_args("keep", "pipe")):
+                    meta = {"L": L, "combo": [0, 0, 0, 1, 1], "layout": "unprivileged_user", "hard": False,
+                            "filter": " ".join(flt) or "default", "disk": "ssd", "extra": extra[:2], "tr": ["keep", "pipe"] if "--transform" in extra else None}
+                    out.append({"tree": tree, "roots": ["r1"], "args": ["--min", "0"] + flt + extra, "ext4": True, "unpriv": True,
+                                "env": {"FCLONES_VERIF_DISK_KIND": "ssd"}, "meta": meta})
     # a transform that fails ONCE (for the first file of the class, after two bytes of output) in a cached run; the
     # same command again, now working: the second report must be complete - nothing the failed attempt left behind
     # (in the cache) may make a readable file drop out of its class
